@@ -238,8 +238,13 @@ enum Outcome {
 	Panic(PanicInfo),
 }
 
+/// the input as a JavaString: as it is when it is "semi" UTF-8 (UTF-8 plus surrogates encoded on their own, which a
+/// JavaString can hold and a class file can contain), otherwise with the offending bytes replaced
 fn js_of(input: &[u8]) -> java_string::JavaString {
-	java_string::JavaString::from(String::from_utf8_lossy(input).into_owned())
+	match java_string::JavaString::from_semi_utf8(input.to_vec()) {
+		Ok(s) => s,
+		Err(_) => java_string::JavaString::from(String::from_utf8_lossy(input).into_owned()),
+	}
 }
 
 /// Runs the REAL parser `p` on `input`. Everything built from the input (tree, error) is dropped in here.
